@@ -611,6 +611,12 @@ func BaseStubs() map[string]StubFn {
 			if s == "stderr" {
 				r.Stderr = append(r.Stderr, out)
 			}
+			if s == "stdout" && r.Env["stdout.faulty"] == true {
+				// standard output may reject the write (a closed pipe, a full device)
+				if err := r.nondetErr("stdout.err"); !err.(iface).isNil() {
+					return tuple{0, err}
+				}
+			}
 			return tuple{lenV(out), iface{}}
 		}
 	}
